@@ -33,6 +33,8 @@ def dedicated_plan(tier, seed):
     tasks = []
     for t in c01.plan(tier, seed):
         if t['space'] in ('feature', 'seed-slice') or t['space'].startswith('grow2'):
+            if any(m.get('arom_h') for m in t['mols']):
+                continue        # cuts next to a written [nH] are decided and recorded under C01 (C01-K1)
             t = dict(t)
             t['space'] = 'dedicated-' + t['space']
             t['kind'] = 'dedicated'
